@@ -1037,6 +1037,20 @@ class EdgeQLSourceGenerator(codegen.SourceGenerator):
             self.write(' ')
             self.visit(node.ref)
 
+    def _ddl_visit_value(self, node: qlast.Expr) -> None:
+        # Statements don't parenthesize themselves directly under a DDL
+        # node (see _needs_parentheses), so do it here for the values
+        # that are not written as `(...)` anyway.
+        parenthesize = (
+            isinstance(node, qlast.Query)
+            and not (isinstance(node, qlast.SelectQuery) and node.implicit)
+        )
+        if parenthesize:
+            self.write('(')
+        self.visit(node)
+        if parenthesize:
+            self.write(')')
+
     def _ddl_visit_type_before_body(self, node: qlast.TypeExpr) -> None:
         # A `{` right after `TYPEOF x` would be read as a shape on x.
         parenthesize = isinstance(node, qlast.TypeOf)
@@ -1765,7 +1779,7 @@ class EdgeQLSourceGenerator(codegen.SourceGenerator):
             self._write_keywords('CREATE ANNOTATION ')
         self.visit(node.name)
         self.write(' := ')
-        self.visit(node.value)
+        self._ddl_visit_value(node.value)
 
     def visit_AlterAnnotationValue(
         self, node: qlast.AlterAnnotationValue
@@ -1775,7 +1789,7 @@ class EdgeQLSourceGenerator(codegen.SourceGenerator):
         self.write(' ')
         if node.value:
             self.write(':= ')
-            self.visit(node.value)
+            self._ddl_visit_value(node.value)
         else:
             # The command should be a DROP OWNED
             assert len(node.commands) == 1
@@ -1814,7 +1828,10 @@ class EdgeQLSourceGenerator(codegen.SourceGenerator):
     def _after_constraint(self, node: qlast.ConcreteConstraintOp) -> None:
         if node.args:
             self.write('(')
-            self.visit_list(node.args, newlines=False)
+            for i, arg in enumerate(node.args):
+                if i > 0:
+                    self.write(', ')
+                self._ddl_visit_value(arg)
             self.write(')')
         if node.subjectexpr:
             self._write_keywords(' ON ')
@@ -2266,7 +2283,7 @@ class EdgeQLSourceGenerator(codegen.SourceGenerator):
                 if i > 0:
                     self.write(', ')
                 self.write(f'{edgeql_quote.quote_ident(name)} := ')
-                self.visit(arg)
+                self._ddl_visit_value(arg)
             self.write(')')
 
         self._write_keywords(' ON ')
@@ -2289,7 +2306,7 @@ class EdgeQLSourceGenerator(codegen.SourceGenerator):
                 if i > 0:
                     self.write(', ')
                 self.write(f'{edgeql_quote.quote_ident(name)} := ')
-                self.visit(arg)
+                self._ddl_visit_value(arg)
             self.write(')')
 
     def visit_CreateIndex(self, node: qlast.CreateIndex) -> None:
